@@ -103,15 +103,18 @@ pub fn message_type(r: &mut Rng, not: &[u8]) -> MessageType {
         return crate::unproj::msg_type(&serde_json::json!([mstp, mtin]));
     }
 }
-/// serialised length of a payload (PayloadContent::as_bytes is crate-private): via a throw-away message
+/// serialised length of a payload (PayloadContent::as_bytes is crate-private), computed from its parts so that the driver does
+/// not depend on Message::as_bytes accepting a message whose length field is not filled in yet
 pub fn payload_len(p: &PayloadContent, e: Endianness) -> usize {
-    let m = Message {
-        storage_header: None,
-        header: StandardHeader { version: 1, endianness: e, has_extended_header: false, message_counter: 0, ecu_id: None, session_id: None, timestamp: None, payload_length: 0 },
-        extended_header: None,
-        payload: p.clone(),
-    };
-    m.as_bytes().len() - 4
+    match p {
+        PayloadContent::Verbose(args) => args.iter().map(|a| {
+            let a2 = a.clone();
+            std::panic::catch_unwind(move || match e { Endianness::Big => a2.as_bytes::<byteorder::BigEndian>().len(), Endianness::Little => a2.as_bytes::<byteorder::LittleEndian>().len() }).unwrap_or(0)
+        }).sum(),
+        PayloadContent::NonVerbose(_, d) => 4 + d.len(),
+        PayloadContent::ControlMsg(_, d) => 1 + d.len(),
+        PayloadContent::NetworkTrace(slices) => slices.iter().map(|s| 4 + 2 + s.len()).sum(),
+    }
 }
 pub struct MsgOpts {
     pub storage: Option<bool>, // force presence / absence
